@@ -35,6 +35,8 @@ Inductive stmt :=
 | SConcat (r : nat) (vs : list nat) (* r := slices.Concat(vs...) *)
 | SClone (r v : nat)                (* r := bytes.Clone(v) *)
 | SStore (x v : nat)                (* x.f = v : the object x now also reaches v *)
+| SBind (r v : nat)                 (* an object variable of class r is bound to the object in the TEMPORARY v: r may
+                                       from now on also denote it; v is dead afterwards (the analysis kills it) *)
 | SEscape (v : nat)                 (* v leaves the function: returned, stored in a shared object or handed to a
                                        callee that keeps it *)
 | SSkip
@@ -98,6 +100,10 @@ Inductive astep : pstate -> stmt -> pstate -> Prop :=
     astep (h, rs, lg) (SStore x v) (h, rs, lg)
 | A_store_take h rs lg x v s : nth_error rs v = Some s ->
     astep (h, rs, lg) (SStore x v) (h, set_nth x s rs, lg)
+| A_bind_keep h rs lg r v :
+    astep (h, rs, lg) (SBind r v) (h, rs, lg)
+| A_bind_take h rs lg r v s : nth_error rs v = Some s ->
+    astep (h, rs, lg) (SBind r v) (h, set_nth r s rs, lg)
 | A_escape h rs lg v s : nth_error rs v = Some s ->
     astep (h, rs, lg) (SEscape v) (h, rs, s :: lg).
 
@@ -138,6 +144,10 @@ Definition andl (a b : list fl) : list fl := map (fun p => fand (fst p) (snd p))
 Definition lel (a b : list fl) : bool := forallb (fun p => fle (fst p) (snd p)) (combine a b).
 Definition top (own : list fl) : list fl := map (fun _ => ftop) own.
 
+(* the object in register v is no longer private (it was stored into an object that is not) *)
+Definition unpriv (v : nat) (own : list fl) : list fl :=
+  set_nth v (mkfl (fw (nth v own fbot)) (fk (nth v own fbot)) false) own.
+
 (* the fixpoint of a loop: lower the flags at the loop head until one more iteration cannot lower them *)
 Fixpoint loop_fix (f : list fl -> option (list fl * list fl)) (fuel : nat) (hd : list fl)
   : option (list fl) :=
@@ -170,8 +180,15 @@ Fixpoint own_stmt (s : stmt) (own : list fl) : option (list fl * list fl) :=
   | SClone r _ => ok (set_nth r ftop own)
   | SStore x v =>
       if fp (o x) then ok (set_nth x (mkfl (fw (o x) && fw (o v)) (fk (o x) && fk (o v)) true) own)
-      else if fk (o v) then ok (set_nth x (mkfl (fw (o x) && fw (o v)) (fk (o x)) false) own)
+      else if fk (o v) then
+        (* x is shared: v escapes into it - and if v is an object it is no longer private *)
+        let own1 := unpriv v own in
+        let o1 u := nth u own1 fbot in
+        ok (set_nth x (mkfl (fw (o1 x) && fw (o1 v)) (fk (o1 x)) false) own1)
       else None
+  | SBind r v =>
+      if Nat.eqb r v then ok own
+      else ok (set_nth v fbot (set_nth r (fand (o r) (o v)) own))
   | SEscape v => if fk (o v) then ok (set_nth v (mkfl (fw (o v)) true false) own) else None
   | SSkip => ok own
   | SJump => Some (top own, own)
@@ -207,16 +224,31 @@ Definition body_disciplined (wf kf : list bool) (p : stmt) : bool :=
 Fixpoint mem (n : nat) (l : list nat) : bool :=
   match l with [] => false | x :: l' => Nat.eqb n x || mem n l' end.
 
-(* object registers stand for a whole may-alias class and are never copied: they are defined by SMake /
-   SOpaque / being a parameter and change only by SStore or by a self-including SPhi (a variable of the
-   class is bound to one more object) *)
+(* Object registers.  The translator computes (OUTSIDE Coq, flow-insensitively) the may-alias classes of the
+   object variables of a function and uses ONE register per class; what is checked here is that the emitted
+   program never copies an object register into another register that is then used as an object: an object
+   register is the target only of SMake / SOpaque / SStore (something is stored into the object) / SBind (the
+   class also denotes the object of a temporary, which is killed); SSub / SAlias / SPhi / SAppend / SConcat /
+   SClone write plain (byte-slice) registers only - they may READ a field out of an object register; and a
+   store goes into an object register only. *)
 Fixpoint obj_wf (objs : list nat) (s : stmt) : bool :=
   match s with
-  | SSub r _ | SAlias r _ | SAppend r _ | SConcat r _ | SClone r _ => negb (mem r objs)
-  | SPhi r vs => negb (mem r objs) || mem r vs
+  | SSub r _ | SAlias r _ | SAppend r _ | SConcat r _ | SClone r _ | SPhi r _ => negb (mem r objs)
+  | SStore x _ => mem x objs
+  | SBind r v => mem r objs && mem v objs
   | SSeq a b | SIf a b => obj_wf objs a && obj_wf objs b
   | SLoop b => obj_wf objs b
   | SCall _ _ eff => obj_wf objs eff
+  | _ => true
+  end.
+
+(* can control fall out of the end of s? *)
+Fixpoint falls (s : stmt) : bool :=
+  match s with
+  | SReturn | SJump => false
+  | SSeq a b => falls a && falls b
+  | SIf a b => falls a || falls b
+  | SCall _ _ eff => falls eff
   | _ => true
   end.
 
@@ -224,7 +256,8 @@ Fixpoint obj_wf (objs : list nat) (s : stmt) : bool :=
 Fixpoint has_write (a : nat) (s : stmt) : bool :=
   match s with
   | SWrite v | SSet v | SAppend _ v | SCopy v _ => Nat.eqb v a
-  | SSeq x y | SIf x y => has_write a x || has_write a y
+  | SSeq x y => has_write a x || (falls x && has_write a y)
+  | SIf x y => has_write a x || has_write a y
   | SLoop b => has_write a b
   | SCall _ _ eff => has_write a eff
   | _ => false
@@ -233,7 +266,8 @@ Fixpoint has_write (a : nat) (s : stmt) : bool :=
 Fixpoint has_escape (a : nat) (s : stmt) : bool :=
   match s with
   | SEscape v => Nat.eqb v a
-  | SSeq x y | SIf x y => has_escape a x || has_escape a y
+  | SSeq x y => has_escape a x || (falls x && has_escape a y)
+  | SIf x y => has_escape a x || has_escape a y
   | SLoop b => has_escape a b
   | SCall _ _ eff => has_escape a eff
   | _ => false
@@ -251,7 +285,18 @@ Fixpoint call_ok_args (wf kf : list bool) (args : list (list nat)) (eff : stmt) 
       call_ok_args (tl wf) (tl kf) args' eff
   end.
 
-(* all call records of a body, given the contracts of the table *)
+(* every call record names an entry of the table *)
+Fixpoint calls_lt (n : nat) (s : stmt) : bool :=
+  match s with
+  | SCall c _ eff => Nat.ltb c n && calls_lt n eff
+  | SSeq a b | SIf a b => calls_lt n a && calls_lt n b
+  | SLoop b => calls_lt n b
+  | _ => true
+  end.
+
+(* all call records of a body, given the contracts of the table.  The check is SYNTACTIC: the effect must
+   contain, on a path that is not cut off by a return or jump, a write through / an escape of the register;
+   it does not prove that the register still holds the argument there. *)
 Fixpoint calls_ok (contract : nat -> list bool * list bool) (s : stmt) : bool :=
   match s with
   | SCall c args eff => call_ok_args (fst (contract c)) (snd (contract c)) args eff && calls_ok contract eff
